@@ -188,6 +188,27 @@ CHECKS["C18"] = dict(
          "Approximate trimming (~) is modelled as exact trimming (a permitted outcome).",
 )
 
+CHECKS["C15"] = dict(
+    category="proof", design_ref="DESIGN.md §6 C15", engine="raftsim",
+    technique="Lean 4 theorems (abstract Raft L0: five safety theorems for every cluster size and schedule; refinement L1 -> L0; executable handler "
+              "RS.handle inside L1) + lock-step correspondence of etcd raft.RawNode with RS.handle under a seeded adversarial scheduler + the safety "
+              "predicates evaluated directly on the implementation after every event",
+    text="Kernel-checked: election safety, log matching, leader completeness, state-machine safety and 'a committed entry is never removed or "
+         "rewritten; term and commit never regress' for the abstract protocol with message loss, duplication, reordering, delay, crash-restart from "
+         "persisted state and snapshots (RS.C15_*), for the handler-level relation shaped like raft.Step (RS.sim, RS.L1_*), and for every run of the "
+         "executable handler RS.handle (RS.handle_in_Step1, RS.run_covered, RS.run_*); etcd's CommittedIndex equals the handler's quorum index for every "
+         "map iteration order (RS.committedIndex_eq_qidx). MODELLED: raft.Step's safety projection for raftexample's Config (term, vote, role, lead, log, "
+         "commit, votes[], match[]; MsgVote/VoteResp/App/AppResp/Heartbeat/Snap; no PreVote/CheckQuorum), fixed membership. VERIFIED AGAINST THE CODE by "
+         "measurement, not proof: 1/3/5 RawNodes over MemoryStorage are driven through generated schedules (ticks, campaigns, proposals, arbitrary "
+         "delivery/loss/duplication/reordering, partitions, crash/restart, compaction forcing MsgSnap, one-entry-per-message paging); after every event the "
+         "node's full projection must equal RS.handle's result exactly and every emitted message must be a response the handler computed or valid leader "
+         "traffic (RS.leaderOutB, proved sound); an accepted trace is an RS.Run (RS.driver_step_is_run).",
+    note="Level: proof for the model (Stages A-C), correspondence (lock-step, generated schedules) for handler = code; membership changes (Stage D), ReadIndex "
+         "and leader transfer are outside both. Trusted: Lean kernel (propext, Classical.choice, Quot.sound), the Lean interpreter running the driver, the Go "
+         "harness's projection/index shift/event classification, MemoryStorage as the persistence layer (the WAL is C16's subject). Flow control is abstracted "
+         "(any true log slice is accepted), timers are not modelled (a tick is classified by its effect).",
+)
+
 NOT_YET = "check not built yet in this round; see DESIGN.md §8"
 NOT_APPLICABLE = {}
 
